@@ -22,11 +22,19 @@ fi
 git reset -q 2>/dev/null
 if ! go build ./... >/tmp/mutconf/$P-$N.build.log 2>&1; then res "DOES NOT COMPILE"; cat /tmp/mutconf/$P-$N.build.log | head; exit 1; fi
 suite() { unshare -n sh -c 'ip link set lo up; go test -vet=off -count=1 -timeout 25m ./... 2>&1' | grep -v "no test files" | grep "^FAIL\|^--- FAIL\|^panic" ; }
+onlyflaky() { [ -z "$(echo "$1" | grep -- '^--- FAIL' | grep -v 'TestClientRace\|TestProgressDisconnect')" ] && [ -z "$(echo "$1" | grep '^FAIL.*v3/' | grep -v 'v3/client')" ] && [ -z "$(echo "$1" | grep '^panic')" ]; }
+clientonly() { unshare -n sh -c 'ip link set lo up; go test -vet=off -count=1 -timeout 10m ./client/ 2>&1' | grep "^FAIL\|^--- FAIL\|^panic" ; }
 F=$(suite)
 if [ -n "$F" ]; then
-  # the two load-flaky client tests: retry once
-  F2=$(suite)
-  if [ -n "$F2" ]; then F3=$(suite); if [ -n "$F3" ]; then res "SUITE FAILS WITH PATCH: $F3"; exit 1; fi; fi
+  # the two load-flaky client tests (10 ms time-outs on real sockets; they fail on the pristine tree too under load):
+  # when nothing else failed, the client package alone must pass in one of up to 8 further attempts
+  if onlyflaky "$F"; then
+    ok=0; for i in 1 2 3 4 5 6 7 8; do G=$(clientonly); if [ -z "$G" ]; then ok=1; break; fi; if ! onlyflaky "$G"; then break; fi; done
+    if [ $ok = 0 ]; then res "SUITE FAILS WITH PATCH (client package never green): $G"; exit 1; fi
+  else
+    F2=$(suite)
+    if [ -n "$F2" ] && ! onlyflaky "$F2"; then res "SUITE FAILS WITH PATCH: $F2"; exit 1; fi
+  fi
 fi
 TESTNAME=$(grep -o "func Test[A-Za-z0-9_]*" $SRC/demo_test.go | head -1 | sed 's/func //')
 PAT="^($(grep -o "^func Test[A-Za-z0-9_]*" $SRC/demo_test.go | sed 's/func //' | paste -sd'|'))\$"
